@@ -370,6 +370,30 @@ def subset(check, prog):
                 ('idx', ('call', 'numpy.diff', (y,), ()), num(0))))
     check.require(ok, 'D2-original-axes', 'FitResult.forward grid',
                   'grid shape and spacing come from the remembered x / y axes', loc)
+    # the grid is rebuilt only for data that *are* a flat subset: an image has
+    # its own axes, and may carry the record of another image's (the hologram of a
+    # subset fit keeps the attribute; cropped and fitted again without subsetting,
+    # its best fit would be computed on the old grid)
+    data_t = intern(('attr', sym('self'), 'data'))
+    dims_t = intern(('attr', data_t, 'dims'))
+    flat_tests = []
+    if dg:
+        for t, p in dg[0]['cond']:
+            for x in subterms(t):
+                if x[0] == 'cmp' and x[1] == 'in' and x[2] == ('const', 'flat') and \
+                        any(y in (dims_t, data_t) for y in subterms(x[3])):
+                    flat_tests.append(x)
+                if x[0] == 'call' and x[1] == 'hasattr' and len(x[2]) == 2 and \
+                        x[2][0] == data_t and x[2][1] == ('const', 'flat'):
+                    flat_tests.append(x)
+    check.require(bool(flat_tests), 'D2-original-axes', 'FitResult.forward subset test',
+                  'the detector is rebuilt only when the data have the flat dimension',
+                  loc, fail_detail='the grid is rebuilt whenever the data carry an '
+                  'original_dims attribute: a full 14 x 18 crop of the hologram of an '
+                  'earlier subset fit still has the attribute (20 x 22), so '
+                  'NmpfitStrategy().fit(crop).hologram has shape (20, 22, 1), and '
+                  'hp.save merges it with the data into a 20 x 22 array with 188 NaN '
+                  'pixels')
 
 
 def coordinates(check, prog):
